@@ -326,7 +326,7 @@ func init() {
 			return s
 		},
 		Run:  c11Run,
-		Rule: "data graph of depth 3 from a struct/map/slice/pointer type family (repeated field names at several depths, prefix names Kids/KidsX, value- and pointer-receiver methods returning leaves/structs/slices, every leaf string spelling its own Go path); from 8 roots (struct value, pointer, slices and a leaf under names that are also field names, a map, a []interface{} of different struct types holding the same field names at different positions) every walk of the type graph of <=L steps (field, index, map key, method call) ending at a string leaf, with indexes/keys spelled as literals, variables, i+0 expressions, variables named like fields expressions that mention the root variable (len(ROOT) / 2), indexes that are themselves index-then-member paths through the same root, and unsigned / 64-bit index variables; each used in an output tag, through let, and (for walks through a slice) as loop iterable with the tail applied to the loop variable. Expected value = Go navigation by reflection. Every walk prefix is also extended by one uncompletable step (missing key, nil pointer then member/method, index 9 / -1 via variable, unknown field/method, unexported field), alone and followed by a further .Field / .Field[0] / .Method() continuation. Oracle: completable => exactly the leaf, or an error; never another value, never empty without error. Uncompletable => error or empty output, never a leaf, never a panic. (poly) one field / method / indexed / helper-result path node evaluated with receivers of 3 struct types (and a pointer) whose same-named fields and methods sit at different positions - in a loop over a mixed slice in 6 orders and as consecutive executions of one parsed template: always the named member of the current receiver. Non-trivial: walks with >=2 steps.",
+		Rule: "data graph of depth 3 from a struct/map/slice/pointer type family (repeated field names at several depths, prefix names Kids/KidsX, value- and pointer-receiver methods returning leaves/structs/slices, every leaf string spelling its own Go path); from 8 roots (struct value, pointer, slices and a leaf under names that are also field names, a map, a []interface{} of different struct types holding the same field names at different positions) every walk of the type graph of <=L steps (field, index, map key, method call) ending at a string leaf, with indexes/keys spelled as literals, variables, i+0 expressions, variables named like fields expressions that mention the root variable (len(ROOT) / 2), indexes that are themselves index-then-member paths through the same root, and unsigned / 64-bit index variables; each used in an output tag, through let, and (for walks through a slice) as loop iterable with the tail applied to the loop variable. Expected value = Go navigation by reflection. Every walk prefix is also extended by one uncompletable step (missing key, nil pointer then member/method, index 9 / -1 via variable, unknown field/method, unexported field), alone and followed by a further .Field / .Field[0] / .Method() continuation. Oracle: completable => exactly the leaf, or an error; never another value, never empty without error. Uncompletable => error or empty output, never a leaf, never a panic. (poly) one field / method / indexed / helper-result path node evaluated with receivers of 3 struct types (and a pointer) whose same-named fields and methods sit at different positions - in a loop over a mixed slice in 6 orders and as consecutive executions of one parsed template: always the named member of the current receiver; a path through a name rebound to nil in an inner scope (let, parameter, loop variable, partial data) fails or is empty, it never continues from the outer variable. Non-trivial: walks with >=2 steps.",
 		Bound: func(th bool) string {
 			if th {
 				return "walk length <=7"
@@ -350,6 +350,35 @@ func c11Run(t *engine.T, shard string) {
 					return "", engine.Failf("wrong-value", "Go navigation yields %q, template rendered %q", pc.Want, out)
 				}
 				return "value", nil
+			})
+		}
+		// a name rebound to nil in an inner scope: a path through it cannot be completed - it must not continue from
+		// the same-named outer variable
+		nilr := []struct{ name, src string }{
+			{"let in a function", `<% let cur = pers %><% let f = fn() { let cur = pers.NilKid
+ return cur.Name } %>[<%= f() %>]`},
+			{"parameter", `<% let cur = pers %><% let f = fn(cur) { return cur.Name } %>[<%= f(pers.NilKid) %>]`},
+			{"loop variable over a nil element", `<% let n = pers %><%= for (n) in nodes { %>[<%= n.Name %>]<% } %>`},
+			{"nested loops over a nil element", `<%= for (n) in outerl { %><%= for (n) in nodes { %>[<%= n.Name %>]<% } %><% } %>`},
+			{"partial data", `<% let cur = pers %>[<%= partial("pcur", {"cur": pers.NilKid}) %>]`},
+		}
+		for _, c := range nilr {
+			c := c
+			t.Case("nil-rebind "+c.name+" "+q(c.src), true, func() (string, *engine.Fail) {
+				plush.CacheEnabled = false
+				ctx := plush.NewContext()
+				ctx.Set("pers", &Person{Name: "OUTER"})
+				ctx.Set("nodes", []interface{}{nil})
+				ctx.Set("outerl", []interface{}{&Person{Name: "OUTER"}})
+				ctx.Set("partialFeeder", func(string) (string, error) { return `<%= cur.Name %>`, nil })
+				out, err := plush.Render(c.src, ctx)
+				if err != nil {
+					return "fails", nil
+				}
+				if strings.Contains(out, "OUTER") {
+					return "", engine.Failf("wrong-value", "navigation through a name bound to nil continued from the outer variable: rendered %q", out)
+				}
+				return "empty", nil
 			})
 		}
 		return
